@@ -393,8 +393,17 @@ fn raw_strategy(which: Which, tier_thorough: bool) -> BoxedStrategy<RawCase>
         Which::C05 => prop_oneof![3 => Just(false), 1 => Just(true)].boxed(),
         _ => prop_oneof![9 => Just(false), 1 => Just(true)].boxed(),
     };
-    (raw_tree(StructSel::Any, if which == Which::C05 { 5 } else { 3 }, p), pre)
-        .prop_map(|(tree, pre_edit)| RawCase { tree, pre_edit })
+    // C05: one tree in ten names an extension twice in `rust.extensions` (a file still is one file: round-10 seed C05)
+    let dup_ext = if which == Which::C05 { prop_oneof![9 => Just(0u8), 1 => 1u8..=3].boxed() } else { Just(0u8).boxed() };
+    (raw_tree(StructSel::Any, if which == Which::C05 { 5 } else { 3 }, p), pre, dup_ext)
+        .prop_map(|(mut tree, pre_edit, dup)| {
+            if dup > 0 && tree.cfg.extensions.is_none()
+            {
+                let l: &[&str] = match dup { 1 => &["rs", "rs"], 2 => &["rs", "inc", "rs"], _ => &["rs", "rs", "rs"] };
+                tree.cfg.extensions = Some(l.iter().map(|s| s.to_string()).collect());
+            }
+            RawCase { tree, pre_edit }
+        })
         .boxed()
 }
 
@@ -410,6 +419,20 @@ pub enum C06Case
 fn lock_of(files: &BTreeMap<String, Vec<u8>>) -> Option<Vec<u8>>
 {
     files.get("Breadlog.lock").cloned()
+}
+
+/// Lock file of a C06 model tree: absent, or a value just below / at a power of ten (the inserted tokens then have
+/// 2 ... 10 digits; round-10 seed C06: ten-digit string-style references not read back) - always far below u32::MAX.
+fn c06_lock() -> BoxedStrategy<crate::gen::LockSpec>
+{
+    use crate::gen::LockSpec;
+    prop_oneof![
+        5 => Just(LockSpec::Absent),
+        1 => (1u32..=9, 0u32..12).prop_map(|(k, d)| LockSpec::Valid(10u32.pow(k) - 6 + d)),
+        2 => (0u32..40).prop_map(|d| LockSpec::Valid(999_999_990 + d)),
+        1 => (1_000_000_000u32..4_000_000_000).prop_map(LockSpec::Valid),
+    ]
+    .boxed()
 }
 
 fn c06_check(case: &C06Case) -> CaseOutcome
@@ -611,8 +634,9 @@ pub fn run(env: &Env, rec: &Recorder, which: Which) -> (String, Vec<&'static str
                         ..StmtParams::default()
                     };
                     prop_oneof![
-                        3 => (model_tree(StructSel::AnyOrOmitted, p, 3, 8, false), cache.clone()).prop_map(|(mut mt, c)| {
+                        3 => (model_tree(StructSel::AnyOrOmitted, p, 3, 8, false), cache.clone(), c06_lock()).prop_map(|(mut mt, c, l)| {
                             mt.cfg.use_cache = c;
+                            mt.lock = l;
                             C06Case::Model(mt)
                         }),
                         2 => (raw_strategy(Which::C06, false), cache).prop_map(|(rc, c)| {
@@ -626,7 +650,7 @@ pub fn run(env: &Env, rec: &Recorder, which: Which) -> (String, Vec<&'static str
                 &c06_check,
             );
             (
-                "trees of valid usage only (rendered statement model incl. targets, key-values, modifiers, directives, existing references, layouts; unmutated real-code corpus files under a widened macro set), both styles, cache on/off/omitted: edit (must exit 0) -> --check must exit 0 with total 0 -> second edit must change no byte and keep the lock value -> every inserted (offset, id) is read back with exactly that id by the parser. Non-trivial = distinct statement that received a reference and has a target, key-values, a directive preamble or a multi-line layout (or a corpus file with insertions)".to_string(),
+                "trees of valid usage only (rendered statement model incl. targets, key-values, modifiers, directives, existing references, layouts; unmutated real-code corpus files under a widened macro set), both styles, cache on/off/omitted, lock file absent or pre-set just below/at a power of ten (10 .. 10^9, so that inserted tokens have 2 to 10 digits) or anywhere in 10^9 .. 4*10^9: edit (must exit 0) -> --check must exit 0 with total 0 -> second edit must change no byte and keep the lock value -> every inserted (offset, id) is read back with exactly that id by the parser. Non-trivial = distinct statement that received a reference and has a target, key-values, a directive preamble or a multi-line layout (or a corpus file with insertions)".to_string(),
                 vec!["read-back uses Breadlog's own parser through the verif-hooks library build, applied to the edited bytes"],
             )
         },
@@ -688,7 +712,7 @@ pub fn run(env: &Env, rec: &Recorder, which: Which) -> (String, Vec<&'static str
             let rule = match which
             {
                 Which::C03 => "trees of 1-3 files from three raw sources (real corpus files under a widened macro set; rendered statement-model files; literal odd texts) optionally mutated (byte/char/token-level, Unicode injection, CRLF conversion, truncation, duplication, invalid UTF-8) or repeated up to 1 MiB (quick) / 4 MiB (thorough); oracle: exact insertion decomposition (deleting the inserted tokens gives back the original bytes), printed count = tokens inserted, insertion offsets = offsets the parser calls missing, unreadable/out-of-scope files byte-identical. Non-trivial = distinct file content with >= 1 insertion and (multi-byte char or tab before an insertion | >= 2 insertions | CRLF | > 64 KiB | produced by mutation)",
-                Which::C05 => "raw trees as for C03 (25 % pre-edited so that nothing is missing) and modelled trees of up to 6 files; oracle: multiset of (file,line,col) reported by --check = positions (position model: 1-based, characters) of the tokens the edit run inserts, totals and exit status consistent, for modelled files also = the model's Missing set. Non-trivial = distinct tree/statement with a missing reference on a line containing a tab, multi-byte character or CRLF, or files with different counts, or a tree with nothing missing (exit 0 side)",
+                Which::C05 => "raw trees as for C03 (25 % pre-edited so that nothing is missing; one tree in ten with an extension named twice or three times in rust.extensions) and modelled trees of up to 6 files; oracle: multiset of (file,line,col) reported by --check = positions (position model: 1-based, characters) of the tokens the edit run inserts, totals and exit status consistent, for modelled files also = the model's Missing set. Non-trivial = distinct tree/statement with a missing reference on a line containing a tab, multi-byte character or CRLF, or files with different counts, or a tree with nothing missing (exit 0 side)",
                 _ => "CLI half of C17: raw trees incl. invalid UTF-8, empty files, truncated statements, non-ASCII identifiers before `!(`, repeated blocks up to 4-6 MiB; oracle: neither mode panics / aborts / dies by signal, a file that is not valid UTF-8, or whose open/read fails (injected EACCES/EIO on a third of the multi-file trees), is named in an error line and left untouched while the other files are processed exactly as the parser predicts / as without the fault. Non-trivial = tree containing a mutated file, an invalid-UTF-8 file or a file > 1 MiB",
             };
             (rule.to_string(), vec!["a run exceeding the 360 s watchdog (an in-process parser call: 300 s) is reported as inconclusive (exit 2), never as a violation"])
